@@ -891,36 +891,98 @@ func runC37(c *Ctx) {
 	if route == nil {
 		c.Failf("apexServer.Mount: r.Route(\"/_internal\", ...) not found (undecided)")
 	}
-	// unreachable when a credential is empty
-	ok := mt.FactsAt(route).Cmp(func(e, tag ast.Expr, truth bool, fa *Fact) bool {
-		be, okb := e.(*ast.BinaryExpr)
-		if !okb {
+	// unreachable when a credential is empty: for each credential the facts at the
+	// registration say it is non-empty (x == "" false, x != "" true, len(x) > 0, ...)
+	nonEmpty := func(field string) bool {
+		return mt.FactsAt(route).Cmp(func(e, tag ast.Expr, truth bool, fa *Fact) bool {
+			be, okb := ast.Unparen(e).(*ast.BinaryExpr)
+			if !okb || tag != nil {
+				return false
+			}
+			x, y := be.X, be.Y
+			if v, _ := mt.ConstVal(x); v == "\"\"" || v == "0" {
+				x, y = y, x
+			}
+			v, _ := mt.ConstVal(y)
+			switch {
+			case v == "\"\"" && mt.Prov(x) == field:
+				return be.Op == token.EQL && !truth || be.Op == token.NEQ && truth
+			case v == "0" && isLenOf(mt, x, func(e ast.Expr) bool { return mt.Prov(e) == field }):
+				return (be.Op == token.EQL || be.Op == token.LEQ) && !truth || (be.Op == token.NEQ || be.Op == token.GTR) && truth
+			}
 			return false
-		}
-		v, _ := mt.ConstVal(be.Y)
-		return okb && !truth && be.Op == token.EQL && v == "\"\"" && mt.Prov(be.X) == "recv.authUser"
-	}) && mt.FactsAt(route).Cmp(func(e, tag ast.Expr, truth bool, fa *Fact) bool {
-		be, okb := e.(*ast.BinaryExpr)
-		if !okb {
-			return false
-		}
-		v, _ := mt.ConstVal(be.Y)
-		return okb && !truth && be.Op == token.EQL && v == "\"\"" && mt.Prov(be.X) == "recv.authPass"
-	})
-	c.Ob("disabled-without-credentials", "Mount#/_internal-only-with-both-credentials", route.Pos(), ok, "the internal prefix is registered only when both the admin user and the admin password are non-empty")
-	lit, okLit := route.Args[1].(*ast.FuncLit)
-	if !okLit {
-		c.Failf("the /_internal route group is not a literal (undecided)")
+		})
 	}
-	g := mt.Closure(lit)
-	// first statement: r.Use(middleware.BasicAuth(_, map{authUser: authPass}))
+	ok := nonEmpty("recv.authUser") && nonEmpty("recv.authPass")
+	c.Ob("disabled-without-credentials", "Mount#/_internal-only-with-both-credentials", route.Pos(), ok, "the internal prefix is registered only when both the admin user and the admin password are non-empty")
+	// the group's body: a literal, or a method / function of the package given by name
+	var g *Fn
+	var body *ast.BlockStmt
+	routerProv := "lit.param#0"
+	if lit, okLit := ast.Unparen(route.Args[1]).(*ast.FuncLit); okLit {
+		g = mt.Closure(lit)
+		body = lit.Body
+	} else if fo, okF := mt.ObjOf(route.Args[1]).(*types.Func); okF {
+		if h := c.FnOfObj(fo); h != nil {
+			g, body = h, h.Body
+			routerProv = "param#0"
+			// a method value must be taken from the receiver itself
+			if se, okS := ast.Unparen(route.Args[1]).(*ast.SelectorExpr); okS && mt.Prov(se.X) != "recv" {
+				g = nil
+			}
+			// and the group body must not be reachable any other way (mounted elsewhere, it
+			// would run without the credentials guard above)
+			uses := 0
+			for _, p := range c.All {
+				for id, o := range p.TypesInfo.Uses {
+					if o == types.Object(fo) && !isTestFile(c.Fset, id.Pos()) {
+						uses++
+					}
+				}
+			}
+			if uses != 1 {
+				g = nil
+			}
+		}
+	}
+	if g == nil {
+		c.Failf("the /_internal route group is neither a literal nor a function of the package (undecided)")
+	}
+	compositeOf := func(e ast.Expr) *ast.CompositeLit {
+		if cl, ok := ast.Unparen(e).(*ast.CompositeLit); ok {
+			return cl
+		}
+		if v := g.varOf(e); v != nil {
+			if defs := g.defsOf(v); len(defs) == 1 && !defs[0].multi && defs[0].rhs != nil {
+				cl, _ := ast.Unparen(defs[0].rhs).(*ast.CompositeLit)
+				return cl
+			}
+		}
+		return nil
+	}
+	// the first registration: r.Use(middleware.BasicAuth(_, map{authUser: authPass})); only
+	// plain declarations may precede it
 	okFirst := false
-	if len(lit.Body.List) > 0 {
-		if es, ok := lit.Body.List[0].(*ast.ExprStmt); ok {
+	for _, st := range body.List {
+		if _, isDecl := st.(*ast.DeclStmt); isDecl {
+			continue
+		}
+		if as, isAs := st.(*ast.AssignStmt); isAs && as.Tok == token.DEFINE {
+			pure := true
+			for _, r := range as.Rhs {
+				if _, isCL := ast.Unparen(r).(*ast.CompositeLit); !isCL {
+					pure = false
+				}
+			}
+			if pure {
+				continue
+			}
+		}
+		if es, ok := st.(*ast.ExprStmt); ok {
 			if use, ok := es.X.(*ast.CallExpr); ok && len(use.Args) == 1 {
-				if se, ok := use.Fun.(*ast.SelectorExpr); ok && se.Sel.Name == "Use" && g.Prov(se.X) == "lit.param#0" {
+				if se, ok := use.Fun.(*ast.SelectorExpr); ok && se.Sel.Name == "Use" && g.Prov(se.X) == routerProv {
 					if ba, ok := use.Args[0].(*ast.CallExpr); ok && g.IsCall(ba, "github.com/go-chi/chi/v5/middleware.BasicAuth") && len(ba.Args) == 2 {
-						if cl, ok := ba.Args[1].(*ast.CompositeLit); ok && len(cl.Elts) == 1 {
+						if cl := compositeOf(ba.Args[1]); cl != nil && len(cl.Elts) == 1 {
 							if kv, ok := cl.Elts[0].(*ast.KeyValueExpr); ok {
 								okFirst = g.Prov(kv.Key) == "recv.authUser" && g.Prov(kv.Value) == "recv.authPass"
 							}
@@ -929,8 +991,9 @@ func runC37(c *Ctx) {
 				}
 			}
 		}
+		break
 	}
-	c.Ob("auth-first", "/_internal#first-middleware-is-BasicAuth(configured credentials)", lit.Pos(), okFirst, "the first thing registered in the /_internal group is BasicAuth with exactly the configured user/password; everything registered afterwards (the node proxy, every mount) runs behind it")
+	c.Ob("auth-first", "/_internal#first-middleware-is-BasicAuth(configured credentials)", body.Pos(), okFirst, "the first thing registered in the /_internal group is BasicAuth with exactly the configured user/password; everything registered afterwards (the node proxy, every mount) runs behind it")
 	// all other registrations in the group use the group's router parameter
 	nreg := 0
 	for _, call := range g.Calls(false, func(call *ast.CallExpr) bool {
@@ -946,7 +1009,7 @@ func runC37(c *Ctx) {
 	}) {
 		nreg++
 		se := call.Fun.(*ast.SelectorExpr)
-		c.Ob("auth-first", "/_internal#"+se.Sel.Name+"-on-group-router", call.Pos(), g.Prov(se.X) == "lit.param#0", "registrations inside the group go to the group's router (the one carrying BasicAuth); found "+g.Prov(se.X))
+		c.Ob("auth-first", "/_internal#"+se.Sel.Name+"-on-group-router", call.Pos(), g.Prov(se.X) == routerProv, "registrations inside the group go to the group's router (the one carrying BasicAuth); found "+g.Prov(se.X))
 	}
 	c.Floor("/_internal group registrations", nreg, 5)
 	// no /_internal pattern registered elsewhere
